@@ -20,6 +20,7 @@ mod c12;
 mod c13;
 mod c17;
 mod c18;
+mod c20;
 mod genprog;
 mod irdecode;
 mod prog;
@@ -146,6 +147,10 @@ fn main() {
         "C18" => {
             c18::run(&rep);
             (c18::RULE, false, vec![A_CLI, "state before/after each service = hook records with full memory dumps (VERIF_DUMP=1)", "stdin is consumed line by line exactly as scripted (std::io::stdin().read_line semantics); inputs are valid UTF-8"])
+        }
+        "C20" => {
+            c20::run(&rep);
+            (c20::RULE, false, vec![A_CLI, "instruction boundaries = hook records; the instruction sequence of a program does not depend on prompt input, so the all-next run supplies the sequence the history model cuts prefixes from", "liveness is monitored in bounded form: no more than 4 MiB of output and termination within a 20 s watchdog (a watchdog alone is inconclusive)"])
         }
         "C06" => {
             c06::run(&rep);
